@@ -187,6 +187,28 @@ Definition isolated (c : svcase) : bool :=
                         | _ => true end) evs
   end.
 
+(* resets (C12_reset over a whole conversation that ends idle): for an id under which no stream handler was ever
+   started, the resets written for it are exactly as many as the envelopes delivered for it that call for one (a
+   stream-method envelope for this server that is no reset and carries a body, or - without body and trailer -
+   undecodable metadata) *)
+Definition calls_for_reset (f : frame) : bool :=
+  match dispatch f with
+  | DStream => negb (is_rst f) && (has_body f || (negb (has_trl f) && md_bad f))
+  | _ => false
+  end.
+Definition resets_exact (c : svcase) : bool :=
+  match c with
+  | CSrv acts observed =>
+      let evs := flat_map o_events observed in
+      let opened := flat_map (fun e => match e with SvInvoke _ false id _ _ _ => [id] | _ => [] end) evs in
+      let dl := filter_map (fun a => match a with ADeliver f => Some f | _ => None end) acts in
+      let ws := flat_map o_writes observed in
+      forallb (fun f => existsb (Z.eqb (fid f)) opened
+                        || Nat.eqb (length (filter (fun g => calls_for_reset g && (fid g =? fid f)) dl))
+                                   (length (filter (fun w => is_rst w && (fid w =? fid f)) ws)))
+              (filter (fun f => match dispatch f with DStream => true | _ => false end) dl)
+  end.
+
 (* at the end: nothing unread, registry empty, no handler goroutine, connection alive *)
 Definition ends_idle (c : svcase) : bool :=
   match c with
@@ -205,7 +227,8 @@ Definition check_case_f (fuel : nat) (c : c12case) : list nat :=
   match c with
   | C12Seq sc => spec_first fuel (nodup Nat.eq_dec (spec_seq sc)) sc
   | C12Walk sc => spec_first fuel ((if probe_answered sc then [] else [4%nat]) ++ (if ends_idle sc then [] else [6%nat])
-                                   ++ (if isolated sc then [] else [9%nat])) sc
+                                   ++ (if isolated sc then [] else [9%nat])
+                                   ++ (if negb (ends_idle sc) || resets_exact sc then [] else [3%nat])) sc
   | C12Dead wedged => if wedged then [8%nat] else [7%nat]
   | C12Method raw r => if opt_eqb pair_bytes_eqb (parse_method raw) r then [] else [1%nat]
   | C12Shape raw k => if mkind_eqb (kind_of_method raw) k then [] else [1%nat]
